@@ -28,10 +28,40 @@ func (n *QueryNode) Build(q *pipeline.QueryNode) (ast.Node, error) {
 		Dot("cron", q.Cron).
 		Dot("offset", q.Offset).
 		DotIf("alignGroup", q.AlignGroupFlag).
-		Dot("groupBy", q.Dimensions).
+		Dot("groupBy", dimensions(q.Dimensions)...).
 		DotIf("groupByMeasurement", q.GroupByMeasurementFlag).
 		DotNotNil("fill", q.Fill).
 		Dot("cluster", q.Cluster)
 
 	return n.prev, n.err
+}
+
+// dimensions produces the arguments of groupBy. Dimensions are written as one list,
+// unless one of them is time(length, offset), which a list cannot hold.
+func dimensions(dims []interface{}) []interface{} {
+	hasTime := false
+	for _, d := range dims {
+		if _, ok := d.(pipeline.TimeDimension); ok {
+			hasTime = true
+		}
+	}
+	if !hasTime {
+		return []interface{}{dims}
+	}
+	args := make([]interface{}, len(dims))
+	for i, d := range dims {
+		args[i] = d
+		if td, ok := d.(pipeline.TimeDimension); ok {
+			fn := &ast.FunctionNode{
+				Type: ast.GlobalFunc,
+				Func: "time",
+				Args: []ast.Node{&ast.DurationNode{Dur: td.Length}},
+			}
+			if td.Offset != 0 {
+				fn.Args = append(fn.Args, &ast.DurationNode{Dur: td.Offset})
+			}
+			args[i] = fn
+		}
+	}
+	return args
 }
